@@ -210,19 +210,19 @@ func finishStream(st *sysStream, cand [][]byte, maxSlices int) bool {
 		st.slices = append(st.slices, u)
 	}
 	if st.codec == "avc" {
-		sps, err := avc.ParseSPSNALUnit(st.sps, true)
-		if err != nil || sps == nil {
+		sps := setupAVCSPS(st.sps)
+		if sps == nil {
 			return false
 		}
 		sm, _ := avcMapsFor(sps, nil)
-		pps, err := avc.ParsePPSNALUnit(st.pps, sm)
-		if err != nil || pps == nil {
+		pps := setupAVCPPS(st.pps, sm)
+		if pps == nil {
 			return false
 		}
 		sm, pm := avcMapsFor(sps, pps)
 		for _, u := range cand {
-			sh, err := avc.ParseSliceHeader(u, sm, pm)
-			if err != nil || sh == nil {
+			sh := setupAVCSlice(u, [][]byte{st.sps, st.pps}, sm, pm)
+			if sh == nil {
 				continue
 			}
 			add(u, fmt.Sprintf("t%d-o%v-idr%v", sh.SliceType%5, sh.NumRefIdxActiveOverrideFlag, u[0]&0x1f == 5))
@@ -254,19 +254,19 @@ func finishStream(st *sysStream, cand [][]byte, maxSlices int) bool {
 		}
 		return true
 	}
-	sps, err := hevc.ParseSPSNALUnit(st.sps)
-	if err != nil || sps == nil {
+	sps := setupHEVCSPS(st.sps)
+	if sps == nil {
 		return false
 	}
 	sm, _ := hevcMapsFor(sps, nil)
-	pps, err := hevc.ParsePPSNALUnit(st.pps, sm)
-	if err != nil || pps == nil {
+	pps := setupHEVCPPS(st.pps, sm)
+	if pps == nil {
 		return false
 	}
 	sm, pm := hevcMapsFor(sps, pps)
 	for _, u := range cand {
-		sh, err := hevc.ParseSliceHeader(u, sm, pm)
-		if err != nil || sh == nil {
+		sh := setupHEVCSlice(u, [][]byte{st.sps, st.pps}, sm, pm)
+		if sh == nil {
 			continue
 		}
 		add(u, fmt.Sprintf("t%d-o%v-n%d-dep%v", sh.SliceType, sh.NumRefIdxActiveOverrideFlag, (u[0]>>1)&0x3f, sh.DependentSliceSegmentFlag))
